@@ -6,7 +6,11 @@ use std::fmt;
 use std::fmt::{Debug, Display, Formatter};
 use std::ops::DerefMut;
 use std::str::FromStr;
-use std::sync::{Arc, Mutex};
+#[cfg(rfsm_verif)]
+use crate::verif::sync::Mutex;
+use std::sync::Arc;
+#[cfg(not(rfsm_verif))]
+use std::sync::Mutex;
 
 use crate::common::ArgOption;
 use crate::fsm;
